@@ -27,6 +27,7 @@ META = {
               '2^-44 band below 10^(k+1)', 'Decimal(x, 6) rounding contract', 'Decimal(fraction) representable or ValueError'],
     'assumptions': ['unit multiple is concrete on every path'],
 }
+META['bounds'].append('float term amounts whose shortest notation is a tie of the sixth decimal (7 values), floats below the limit')
 
 
 def setup(mode):
